@@ -46,6 +46,9 @@ fn edits_of(p: &Printed) -> Vec<(Edit, &'static str)> {
         v.push((Edit::Insert(g, "[- a\nb -]"), "multi-line block comment between words"));
         v.push((Edit::Insert(g, "[-- c --]"), "block comment with dashes between words"));
         v.push((Edit::Insert(g, "[---]"), "block comment of dashes between words"));
+        v.push((Edit::Insert(g, "[- c -] "), "block comment and a space between words"));
+        v.push((Edit::Insert(g, "[- é 😀 -]"), "block comment with multi-byte characters between words"));
+        v.push((Edit::Insert(g, " \n"), "line wrapped with trailing spaces between words"));
     }
     let nl = if p.src.contains('\r') { "\r\n" } else { "\n" };
     for &b in &p.block_starts {
@@ -55,6 +58,8 @@ fn edits_of(p: &Printed) -> Vec<(Edit, &'static str)> {
             v.push((Edit::Insert(b, "  \n"), "blank line with spaces"));
             v.push((Edit::Insert(b, "[- c -]\n"), "block-comment-only line"));
             v.push((Edit::Insert(b, "\n\n-- c\n\n"), "several blank and comment lines"));
+            v.push((Edit::Insert(b, "[- después é -]\n"), "block-comment-only line with multi-byte characters"));
+            v.push((Edit::Insert(b, "-- 😀 é\n"), "comment-only line with multi-byte characters"));
         } else {
             v.push((Edit::Insert(b, "\r\n"), "extra blank line"));
             v.push((Edit::Insert(b, "-- c\r\n"), "comment-only line"));
